@@ -136,52 +136,82 @@ def check_exec(ctx, name, scn, res, prefix, cost):
 def run(ctx):
     bound = 2 if ctx.quick else 3
     budget = float(os.environ.get("GV_SCHED_BUDGET", 45 if ctx.quick else 1500))
-    horizon = 140
+    horizon = 100
     ctx.bound("deviation_bound_requested", bound)
     ctx.bound("step_horizon", horizon)
     only = os.environ.get("GV_C31_ONLY")
     names = [n for n in SCENARIOS if not only or n in only.split(",")]
+    # the interrupt-behind-eval scenario first: it is where the dequeue/reset window is reachable with two deviations
+    names.sort(key=lambda n: (n != "I2-behind", list(SCENARIOS).index(n)))
     t0 = time.time()
     total_execs = total_points = outcomes = 0
-    completed = []
-    seen_interrupted = seen_horizon = 0
-    for idx, name in enumerate(names):
-        scn = SCENARIOS[name]
-        share = t0 + budget * (idx + 1) / len(names)
-        stats = {"interrupted": 0}
+    completed = {}
+    stats_all = {"interrupted": 0}
+    bases = {}
 
-        def chk(res, prefix, cost, name=name, scn=scn, stats=stats):
+    def explore(name, bnd, deadline):
+        scn = SCENARIOS[name]
+
+        def chk(res, prefix, cost):
             if any("interrupted" in schedx.status_of(m) for m in res["responses"]):
-                stats["interrupted"] += 1
+                stats_all["interrupted"] += 1
             check_exec(ctx, name, scn, res, prefix, cost)
-        ex = schedx.Explorer(ctx.binary, scn["script"], horizon, bound, chk, deadline=share)
+        ex = schedx.Explorer(ctx.binary, scn["script"], horizon, bnd, chk, deadline=deadline)
+        ex.explore()
+        return ex
+
+    # pass 1: determinism, then every schedule with at most one deviation, for every scenario (no time cap)
+    first = {}
+    for name in names:
+        scn = SCENARIOS[name]
         base = schedx.run_exec(ctx.binary, scn["script"], [], horizon)
         if not base["trace"]:
             raise Machinery(f"{name}: empty trace: {base['end']} {base.get('stderr', '')[:300]}")
+        bases[name] = base
         ch = [p["choice"] for p in base["trace"]]
         probes = [[]]
         for i, p in enumerate(base["trace"]):
             if len(p["alts"]) > 1:
                 probes.append(ch[:i] + [1])
                 break
-        ex.determinism(probes)
-        ex.explore()
+        for i, p in enumerate(base["trace"]):
+            tix = [k for k, a in enumerate(p["alts"]) if a[2]]
+            if tix:
+                probes.append(ch[:i] + [tix[0]])
+                break
+        schedx.Explorer(ctx.binary, scn["script"], horizon, 0, lambda *a: None).determinism(probes)
+        first[name] = explore(name, 1, None)
+        completed[name] = first[name].completed_bound
+    # pass 2: deeper bounds, in priority order, within the time budget
+    final = dict(first)
+    for depth in range(2, bound + 1):
+        for idx, name in enumerate(names):
+            left = t0 + budget - time.time()
+            if left <= 0:
+                break
+            share = time.time() + left / (len(names) - idx)
+            ex = explore(name, depth, share)
+            if ex.completed_bound >= depth:
+                completed[name] = depth
+                final[name] = ex
+            elif ex.execs > final[name].execs:
+                final[name] = ex
+    for name in names:
+        ex = final[name]
         total_execs += ex.execs
         total_points += ex.points
         outcomes += len(ex.outcomes)
-        completed.append(ex.completed_bound)
-        seen_interrupted += stats["interrupted"]
-        seen_horizon += ex.ends.get("horizon", 0)
         ctx.outcome(f"{name}: executions", ex.execs)
-        ctx.outcome(f"{name}: executions with an interrupted eval", stats["interrupted"])
         ctx.outcome(f"{name}: distinct response sequences", len(ex.outcomes))
         for e, n in ex.ends.items():
             ctx.outcome(f"{name}: end={e}", n)
-        ctx.bound(f"{name}: bound completed / executions by cost / longest trace", [ex.completed_bound, ex.by_cost, ex.max_len])
-        if ex.capped:
-            ctx.cap(f"{name}: {ex.capped}")
+        ctx.bound(f"{name}: bound completed / executions by cost / longest trace", [completed[name], ex.by_cost, ex.max_len])
+        if completed[name] < bound:
+            ctx.cap(f"{name}: deviation bound {completed[name]} completed, bound {completed[name] + 1} explored partially ({ex.by_cost.get(completed[name] + 1, 0)} schedules) within the time budget")
         if len(ctx.cov["samples"]) < 3:
-            ctx.sample({"scenario": name, "script": scn["script"], "default_schedule": [f"{t}:{l}" for (i, t, l, to) in schedx.executed_ops(base)][:80]})
+            ctx.sample({"scenario": name, "script": SCENARIOS[name]["script"], "default_schedule": [f"{t}:{l}" for (i, t, l, to) in schedx.executed_ops(bases[name])][:80]})
+    completed = list(completed.values())
+    seen_interrupted = stats_all["interrupted"]
     ctx.bound("deviation_bound_completed_all_scenarios", min(completed))
     if min(completed) < 1:
         raise Machinery(f"time budget too small: completed deviation bounds {completed}")
